@@ -284,8 +284,9 @@ def _apply_oracles(obs, case, spec, flat, cfg, task, before_cfg, before_task, mo
     # ---- C05: objective arguments
     n_calls, bad = log.n, list(log.bad)
     n_bad = log.n_bad
+    worker_args = []
     if calls_file:
-        n2, bad2, _ = tasks.read_calls_file(calls_file)
+        n2, bad2, worker_args = tasks.read_calls_file(calls_file)
         n_calls += n2
         n_bad += len(bad2)
         bad.extend(bad2[:50])
@@ -497,6 +498,21 @@ def _apply_oracles(obs, case, spec, flat, cfg, task, before_cfg, before_task, mo
             if wp != gp:
                 _v(obs, "C11" if gmode != "serial" else "C16", {"kind": "greedy-population"},
                    f"{gmode} greedy selection result differs from the element-wise serial outcome")
+                break
+    # exactly-once, second half: every agent returned by _generate_agents while initialising corresponds to one
+    # evaluation of exactly its position (each argument vector is its own unique id)
+    if log.args is not None:
+        import collections as _c
+        evaluated = _c.Counter(json.dumps(canon(a)) for a in (log.args + worker_args))
+        st["recorded_args"] = sum(evaluated.values())
+        for req, got, phase, positions in mon.generated_init:
+            need = _c.Counter(json.dumps(canon(p)) for p in positions)
+            st["init_agents_matched"] = st.get("init_agents_matched", 0) + len(positions)
+            missing = [(k, n, evaluated.get(k, 0)) for k, n in need.items() if evaluated.get(k, 0) < n]
+            if missing:
+                k, n, have = missing[0]
+                _v(obs, "C11", {"kind": "agent-without-evaluation"},
+                   f"initial agent(s) at {k[:120]}: {n} agent(s) but {have} evaluation(s) of that position")
                 break
     # initial population distinctness (continuous-only tasks; DESIGN C11 iv): agents drawn by _generate_agents while the
     # population is being initialised must not be exact copies of one another (interior points only: points clipped
